@@ -28,7 +28,8 @@ class LinearMatrix(_AbstractDistribution):
 
         # Set precision for inconsistently passed objects ------------------------------
         if dtype is not None:
-            G.dtype = dtype
+            # Convert the values; assigning to G.dtype would reinterpret the raw bytes
+            G = G.astype(dtype)
         d = d.astype(G.dtype)
         if type(data_covariance) not in [float, _numpy.float32, _numpy.float64]:
             data_covariance = data_covariance.astype(G.dtype)
